@@ -166,6 +166,15 @@ func (u *Unit) kLeafShape(e ast.Expr) (string, bool) {
 		}
 		return "", false
 	}
+	if c, ok := e.(*ast.CallExpr); ok && isSlicesContains(u.Info, c) {
+		// slices.Contains(xs, 0) is the loop test `x == 0`
+		if tv, has := u.Info.Types[c.Args[1]]; has && tv.Value != nil {
+			if sl, isSl := u.Info.TypeOf(c.Args[0]).Underlying().(*types.Slice); isSl {
+				return canonEq("<"+shortType(sl.Elem())+">", tv.Value.ExactString()), true
+			}
+		}
+		return "", false
+	}
 	be, ok := e.(*ast.BinaryExpr)
 	if !ok {
 		return "", false
